@@ -302,6 +302,37 @@ func runC13(c *ctx) {
 			c.Violation("C13/decoder/mixed-length-fields", fmt.Sprintf("a list of items with payload sizes %v does not decode back (built: %s, %d bytes, ok=%v)", sizes, o, len(b), ok), c13Case{"mixed", "B+A+U2", sizes[0]})
 		}
 	}
+	// a list of 16,777,216 elements is beyond the limit whatever its last element is (item, variable, ellipsis)
+	{
+		args := make([]interface{}, ref.MaxBytes+1)
+		leaf := ast.NewUintNode(1)
+		for i := range args {
+			args[i] = leaf
+		}
+		for _, last := range []interface{}{"...", "lastvar", "...[3]"} {
+			args[len(args)-1] = last
+			o := real.Try(func() { ast.NewListNode(args...) })
+			c.NoteBulk(1, 1)
+			c.Class("list-limit-with-variable-last")
+			if !o.Panicked {
+				c.Violation("C13/item/accepted-beyond-limit/L-with-variable", fmt.Sprintf("a list of %d elements ending in %q was constructed", len(args), last), c13Case{"listvar", "L", len(args)})
+			}
+		}
+	}
+	// bytes returned for one item stay what they were while other items are encoded
+	{
+		first := c13Build(ref.L, 0).ToBytes()
+		second := ast.NewListNode(c13Build(ref.B, 3), c13Build(ref.L, 2)).ToBytes()
+		keep1, keep2 := append([]byte(nil), first...), append([]byte(nil), second...)
+		_ = c13Build(ref.L, 255).ToBytes()
+		_ = c13Build(ref.L, 65536).ToBytes()
+		_ = c13Build(ref.A, 300).ToBytes()
+		c.NoteBulk(1, 1)
+		c.Class("earlier-encoding-re-read")
+		if !bytes.Equal(first, keep1) || !bytes.Equal(second, keep2) {
+			c.Violation("C13/earlier-result-changed-by-later-encoding", fmt.Sprintf("<L[0]> now reads %x (was %x); a nested list now reads %x (was %x)", clipB(first), keep1, clipB(second), clipB(keep2)), c13Case{"keep", "L", 0})
+		}
+	}
 	// the limit also binds an ASCII value that arrives through FillVariables
 	for _, n := range []int{ref.MaxBytes, ref.MaxBytes + 1} {
 		var filled ast.ItemNode
@@ -316,7 +347,7 @@ func runC13(c *ctx) {
 			c.Violation("C13/fill/encoding", fmt.Sprintf("filled ASCII of %d characters encodes to %d bytes", n, len(filled.ToBytes())), c13Case{"fill", "A", n})
 		}
 	}
-	c.Required = []string{"mixed-length-fields", "ascii-fill-at-the-limit", "item/beyond-limit", "item/lenbytes=3/L", "item/lenbytes=3/A", "item/lenbytes=3/F8", "item/lenbytes=2/U2", "header-sweep-points"}
+	c.Required = []string{"mixed-length-fields", "list-limit-with-variable-last", "earlier-encoding-re-read", "ascii-fill-at-the-limit", "item/beyond-limit", "item/lenbytes=3/L", "item/lenbytes=3/A", "item/lenbytes=3/F8", "item/lenbytes=2/U2", "header-sweep-points"}
 }
 
 func replayC13(c *ctx, raw json.RawMessage) {
